@@ -300,6 +300,24 @@ func TestGrammarMutation(t *testing.T) {
 			run.Label("check-after-other-calls")
 		}
 		history(text)
+		// every control byte (and its neighbours 0x20, 0x7f) at one position inside one string or key
+		if spans := stringSpans(v); len(spans) > 0 && rapid.IntRange(0, 3).Draw(t, "ctl") == 0 {
+			sp := spans[rapid.IntRange(0, len(spans)-1).Draw(t, "ctlSpan")]
+			at := rapid.IntRange(sp[0]+1, sp[1]).Draw(t, "ctlAt") // after the opening quote .. before the closing one
+			if at > sp[0]+1 && text[at-1] == '\\' {
+				at-- // not between a backslash and the character it escapes
+			}
+			for b := 0; b <= 0x21; b++ {
+				c := byte(b)
+				if b == 0x21 {
+					c = 0x7f
+				}
+				m := append(append(append([]byte(nil), text[:at]...), c), text[at:]...)
+				acc := check(t, m, allow)
+				run.Eval(chk, nontrivial(m, acc), string(m), fmt.Sprint(allow))
+			}
+			run.Label("control-byte-sweep-inside-a-string")
+		}
 		nmut := rapid.IntRange(1, 4).Draw(t, "nmut")
 		for k := 0; k < nmut; k++ {
 			m := mutate(t, text)
@@ -313,6 +331,27 @@ func TestGrammarMutation(t *testing.T) {
 			}
 		}
 	})
+}
+
+// stringSpans lists [begin, end] (offsets of the two quotes) of every string value and key of a
+// printed model.
+func stringSpans(v *ref.Value) [][2]int {
+	var out [][2]int
+	var rec func(v *ref.Value)
+	rec = func(v *ref.Value) {
+		if v.Kind == ref.KString {
+			out = append(out, [2]int{v.Begin, v.End})
+		}
+		for _, it := range v.Items {
+			rec(it)
+		}
+		for _, m := range v.Members {
+			out = append(out, [2]int{m.KeyBegin, m.KeyEnd})
+			rec(m.Val)
+		}
+	}
+	rec(v)
+	return out
 }
 
 func mutate(t *rapid.T, text []byte) []byte {
